@@ -505,7 +505,7 @@ def run_atheris(case):
 
 SUBCHECKS.append(
     Subcheck('atheris_campaign', run_atheris, cases=_atheris_cases,
-             wall={'quick': 150.0, 'thorough': 2400.0}, shards={'quick': 4, 'thorough': 4},
+             wall={'quick': 400.0, 'thorough': 2400.0}, shards={'quick': 4, 'thorough': 4},
              rule='libFuzzer byte strings decoded by Hypothesis fuzz_one_input into the flatten / pytree cases; '
                   'units = decoded valid cases; empty corpus and a small seeded corpus',
              doc='coverage-guided search (dinosaur.pytree_utils instrumented) with the round-trip oracle inside the target'))
